@@ -24,6 +24,21 @@ theorem concatCounts_injective (t e s t' e' s' : UInt64) (d d' : Nat)
     t = t' ∧ e = e' ∧ s = s' ∧ (d = 1 ↔ d' = 1) :=
   concatCounts_inj t e s t' e' s' d d' h
 
+/-- … and it stays injective after `felt.SetBytes` reduces the 256-bit number modulo the Stark prime
+`P = 2^251 + 17·2^192 + 1` (the literal juno actually hashes), for ALL `uint64` counts. -/
+theorem concatCounts_injective_modP (t e s t' e' s' : UInt64) (d d' : Nat)
+    (h : concatCounts t e s d % starkPrime = concatCounts t' e' s' d' % starkPrime) :
+    t = t' ∧ e = e' ∧ s = s' ∧ (d = 1 ↔ d' = 1) :=
+  concatCounts_modP_inj t e s t' e' s' d d' h
+
+/-- The protocol version enters the block hash as `felt.SetBytes(string)`: two version strings that
+`ParseBlockVersion` accepts (non-empty ones start with a digit) and that have the same value are the
+same string — the `versionBytes` component of the header views determines the string. -/
+theorem version_string_committed (x y : UInt8) (as bs : Bytes) (v w : Ver)
+    (hv : parseVersion (x :: as) = some v) (hw : parseVersion (y :: bs) = some w)
+    (h : bytesToNat (x :: as) = bytesToNat (y :: bs)) : x :: as = y :: bs :=
+  bytesToNat_inj_of_nonzero_head x y as bs (parseVersion_head x as v hv) (parseVersion_head y bs w hw) h
+
 /-- `dataAvailabilityMode(fee, nonce)` is injective over `uint32²`. -/
 theorem daMode_injective (f n f' n' : UInt32) (h : daMode f n = daMode f' n') : f = f' ∧ n = n' :=
   daFelt_inj h
@@ -127,6 +142,21 @@ theorem committed_fields_injective_v0132 (net : Net) (b b' : Block) (sd sd' : St
     (h : blockHash net b sd ov = some x) (h' : blockHash net b' sd' ov' = some x) :
     dispatch net b'.header.number b'.header.version = some .v0132 ∧ blockView0132 b sd = blockView0132 b' sd' :=
   blockHash_v0132_inj net b b' sd sd' ov ov' x hf h h'
+
+/-- post-0.7 Pedersen format (every protocol version below 0.13.2 from `First07Block` on; the
+real-network fixture blocks): number, state root, sequencer (after the fallback override), timestamp,
+transaction and event counts, parent hash; every transaction's hash and signature (before 0.11.1:
+only invoke signatures); every event's from / keys / data in order. NOT committed in this format:
+the protocol version string, gas prices, receipts (fees, messages, revert status), the state diff. -/
+theorem committed_fields_injective_post07 (b b' : Block) (ov ov' : Option Term) (x : Term)
+    (h : post07 b ov = some x) (h' : post07 b' ov' = some x) :
+    ∃ seq seq', (match ov with | some s => some s | none => b.header.sequencer) = some seq ∧
+      (match ov' with | some s => some s | none => b'.header.sequencer) = some seq' ∧
+      (⟨b.header.number, b.header.stateRoot, seq, b.header.timestamp, b.header.txCount, b.header.eventCount, b.header.parentHash⟩ : HeaderViewPost07)
+        = ⟨b'.header.number, b'.header.stateRoot, seq', b'.header.timestamp, b'.header.txCount, b'.header.eventCount, b'.header.parentHash⟩ ∧
+      b.txs.map (sigViewPedersen (allSigsOf b)) = b'.txs.map (sigViewPedersen (allSigsOf b')) ∧
+      eventsOnly b.receipts = eventsOnly b'.receipts :=
+  post07_inj b b' ov ov' x h h'
 
 /-! ## Acceptance -/
 
@@ -335,6 +365,40 @@ theorem chain_invariant {σ : Type} (sem : StateSem σ) (net : Net) (st0 : σ) (
     let c := run sem net ⟨none, st0, []⟩ Bs
     ChainOK sem net st0 c.head c.st c.stored :=
   run_preserves sem net st0 Bs ⟨none, st0, []⟩ ChainOK.empty
+
+/-- For ALL pairs of histories: whatever two nodes were offered, if each stores a block (of the
+0.13.4+ format, outside an unverifiable range) and the two blocks declare the same hash, then they
+have the same format and the same committed content — every position of every list included. -/
+theorem stored_same_hash_same_content_v0134 {σ : Type} (sem : StateSem σ) (net : Net) (st0 st0' : σ)
+    (Bs Bs' : List Bundle) (B B' : Bundle)
+    (hB : B ∈ (run sem net ⟨none, st0, []⟩ Bs).stored) (hB' : B' ∈ (run sem net ⟨none, st0', []⟩ Bs').stored)
+    (hu : inUnverifiable net B.block.header.number = false) (hu' : inUnverifiable net B'.block.header.number = false)
+    (hf : dispatch net B.block.header.number B.block.header.version = some .v0134)
+    (hsame : B'.block.header.hash = B.block.header.hash) :
+    dispatch net B'.block.header.number B'.block.header.version = some .v0134 ∧
+    blockView0134 B.block B.su.diff = blockView0134 B'.block B'.su.diff := by
+  have hv := chainOK_mem_verified sem net st0 _ _ _ (run_preserves sem net st0 Bs ⟨none, st0, []⟩ ChainOK.empty) B hB
+  have hv' := chainOK_mem_verified sem net st0' _ _ _ (run_preserves sem net st0' Bs' ⟨none, st0', []⟩ ChainOK.empty) B' hB'
+  obtain ⟨ov, hh⟩ := hv.hash hu
+  obtain ⟨ov', hh'⟩ := hv'.hash hu'
+  rw [hsame] at hh'
+  exact blockHash_v0134_inj net B.block B'.block B.su.diff B'.su.diff ov ov' _ hf hh hh'
+
+/-- the same for the 0.13.2–0.13.3 format -/
+theorem stored_same_hash_same_content_v0132 {σ : Type} (sem : StateSem σ) (net : Net) (st0 st0' : σ)
+    (Bs Bs' : List Bundle) (B B' : Bundle)
+    (hB : B ∈ (run sem net ⟨none, st0, []⟩ Bs).stored) (hB' : B' ∈ (run sem net ⟨none, st0', []⟩ Bs').stored)
+    (hu : inUnverifiable net B.block.header.number = false) (hu' : inUnverifiable net B'.block.header.number = false)
+    (hf : dispatch net B.block.header.number B.block.header.version = some .v0132)
+    (hsame : B'.block.header.hash = B.block.header.hash) :
+    dispatch net B'.block.header.number B'.block.header.version = some .v0132 ∧
+    blockView0132 B.block B.su.diff = blockView0132 B'.block B'.su.diff := by
+  have hv := chainOK_mem_verified sem net st0 _ _ _ (run_preserves sem net st0 Bs ⟨none, st0, []⟩ ChainOK.empty) B hB
+  have hv' := chainOK_mem_verified sem net st0' _ _ _ (run_preserves sem net st0' Bs' ⟨none, st0', []⟩ ChainOK.empty) B' hB'
+  obtain ⟨ov, hh⟩ := hv.hash hu
+  obtain ⟨ov', hh'⟩ := hv'.hash hu'
+  rw [hsame] at hh'
+  exact blockHash_v0132_inj net B.block B'.block B.su.diff B'.su.diff ov ov' _ hf hh hh'
 
 /-! ## Named exceptions: what is NOT committed (each a proved statement, none hidden in a view) -/
 
